@@ -342,10 +342,26 @@ Fixpoint check_from (k : case) (s : state) (po : obs) (ws : list (Z * Z)) (steps
       check_from k s' o ws' rest (i + 1) v'
   end.
 
+(** ** the hypotheses of the theorems of Props/C03.v and Props/C04.v, decided per case: asset limits
+    not negative, nothing in escrow at genesis, no create message signed by a module account or
+    naming the escrow account as recipient ([Htlc/Sound.v]: [hyps_b k = true] implies them).  A case
+    outside the hypotheses is a harness defect and is reported as a divergence at step 0. *)
+Definition wf_op_b (o : op) : bool :=
+  match o with
+  | Create m => negb (m_sender m =? ESC) && negb (m_sender m =? BLK) && negb (m_to m =? ESC)
+  | _ => true
+  end.
+Definition params_ok_b (P : list aparam) : bool := forallb (fun p => (0 <=? ap_limit p) && (0 <=? ap_tbl p)) P.
+Definition escrow_empty_b (l : ledger) : bool :=
+  forallb (fun e : acct * denom * Z => negb (fst (fst e) =? ESC) || (snd e =? 0)) l.
+Definition case_ops (k : case) : list op := map (fun cd : cop * dobs => to_op k (fst cd)) (k_steps k).
+Definition hyps_b (k : case) : bool :=
+  params_ok_b (k_params k) && escrow_empty_b (bank_of k (k_obs0 k)) && forallb wf_op_b (case_ops k).
+
 Definition check_all (k : case) : verdict :=
   let s0 := init (k_params k) (bank_of k (k_obs0 k)) (o_time (k_obs0 k)) in
   let ws0 := map (fun _ => (0, 0)) (k_params k) in
-  let v0 := mkV (if corr_obs k s0 0 (k_obs0 k) then -1 else 0) (-1) 0
+  let v0 := mkV (if corr_obs k s0 0 (k_obs0 k) && hyps_b k then -1 else 0) (-1) 0
                 (if p04 k (k_obs0 k) ws0 =? 0 then -1 else 0) (p04 k (k_obs0 k) ws0) in
   check_from k s0 (k_obs0 k) ws0 (k_steps k) 0 v0.
 
